@@ -444,4 +444,326 @@ theorem parseLine_some_fields (l : Bytes) (x : Item) (h : parseLine l = some x) 
     · simp [h1, h2] at h
     · omega
 
+/-! ### writer invariants -/
+
+theorem modLast_length (l : Dir) (f : File → File) : (modLast l f).length = l.length := by
+  induction l with
+  | nil => rfl
+  | cons x r ih =>
+    cases r with
+    | nil => rfl
+    | cons y r => simp only [modLast, List.length_cons] at ih ⊢; omega
+
+theorem modLast_snoc (l : Dir) (x : File) (f : File → File) : modLast (l ++ [x]) f = l ++ [f x] := by
+  induction l with
+  | nil => rfl
+  | cons y r ih =>
+    cases r with
+    | nil => simp [modLast]
+    | cons z r => simp only [List.cons_append, modLast] at ih ⊢; rw [ih]
+
+theorem modLast_forall (P : File → Prop) (l : Dir) (f : File → File) (hl : ∀ x ∈ l, P x) (hf : ∀ x, P x → P (f x)) :
+    ∀ x ∈ modLast l f, P x := by
+  induction l with
+  | nil => simp [modLast]
+  | cons y r ih =>
+    cases r with
+    | nil =>
+      intro x hx
+      simp only [modLast, List.mem_singleton] at hx
+      exact hx ▸ hf y (hl y (by simp))
+    | cons z r =>
+      intro x hx
+      simp only [modLast, List.mem_cons] at hx
+      rcases hx with rfl | hx
+      · exact hl _ (by simp)
+      · exact ih (fun a ha => hl a (List.mem_cons_of_mem _ ha)) x (by simpa [modLast] using hx)
+
+theorem serialise_append (a b : List Item) : serialise (a ++ b) = serialise a ++ serialise b := by
+  induction a with
+  | nil => rfl
+  | cons x r ih => simp [serialise, ih]
+
+theorem encodeIdx_append (a b : List (Nat × Nat)) : encodeIdx (a ++ b) = encodeIdx a ++ encodeIdx b := by
+  induction a with
+  | nil => rfl
+  | cons x r ih => obtain ⟨s, o⟩ := x; simp [encodeIdx, ih]
+
+/-- the bytes of a file are the serialisation of what was written to it -/
+def FileOK (f : File) : Prop := f.data = serialise f.lines ∧ f.idx = encodeIdx f.ents
+
+/-- an invariant kept by the four steps of `Write` is kept by `Write` -/
+theorem write_induct (P : Writer → Prop)
+    (hidx : ∀ w sec, P w → P (w.addIndex sec)) (happ : ∀ w items, P w → P (w.append items))
+    (hroll : ∀ w ts, P w → P (w.roll ts)) (hlat : ∀ (w : Writer) n, P w → P { w with latestOpSec := n })
+    (w : Writer) (ts : Nat) (items : List Item) (h : P w) : P (w.write ts items) := by
+  have hrollIf : ∀ w c ts, P w → P (w.rollIf c ts) := by
+    intro w c ts hw; unfold Writer.rollIf; split_ifs; exact hroll _ _ hw; exact hw
+  unfold Writer.write
+  dsimp only
+  split_ifs
+  · exact h
+  · exact hlat _ _ (hrollIf _ _ _ (happ _ _ (hrollIf _ _ _ (hidx _ _ h))))
+  · exact hlat _ _ (hrollIf _ _ _ (happ _ _ h))
+
+theorem runWrites_induct (P : Writer → Prop)
+    (hidx : ∀ w sec, P w → P (w.addIndex sec)) (happ : ∀ w items, P w → P (w.append items))
+    (hroll : ∀ w ts, P w → P (w.roll ts)) (hlat : ∀ (w : Writer) n, P w → P { w with latestOpSec := n })
+    (w : Writer) (hist : List (Nat × List Item)) (h : P w) : P (runWrites w hist) := by
+  induction hist generalizing w with
+  | nil => exact h
+  | cons p r ih => exact ih _ (write_induct P hidx happ hroll hlat w p.1 p.2 h)
+
+theorem allFilesOK_runWrites (w : Writer) (hist : List (Nat × List Item)) (h : ∀ f ∈ w.files, FileOK f) :
+    ∀ f ∈ (runWrites w hist).files, FileOK f := by
+  refine runWrites_induct (fun w => ∀ f ∈ w.files, FileOK f) ?_ ?_ ?_ ?_ w hist h
+  · intro w sec hw
+    exact modLast_forall FileOK _ _ hw (fun x hx => ⟨hx.1, by simp [hx.2, encodeIdx_append, encodeIdx]⟩)
+  · intro w items hw
+    exact modLast_forall FileOK _ _ hw (fun x hx => ⟨by simp [hx.1, serialise_append], hx.2⟩)
+  · intro w ts hw f hf
+    simp only [Writer.roll, List.mem_append, List.mem_singleton] at hf
+    rcases hf with hf | rfl
+    · exact hw f (List.mem_of_mem_drop hf)
+    · exact ⟨rfl, rfl⟩
+  · intro w n hw; exact hw
+
+theorem new_filesOK (now a b : Nat) : ∀ f ∈ (Writer.new now a b).files, FileOK f := by
+  intro f hf
+  simp only [Writer.new, Writer.roll, List.length_nil, List.drop_nil, List.nil_append, List.mem_singleton] at hf
+  subst hf
+  exact ⟨rfl, rfl⟩
+
+/-- **file-count bound**, kept by every step -/
+theorem fileCount_runWrites (w : Writer) (hist : List (Nat × List Item)) (h0 : 0 < w.maxFiles)
+    (h : w.files.length ≤ w.maxFiles) :
+    (runWrites w hist).files.length ≤ w.maxFiles ∧ (runWrites w hist).maxFiles = w.maxFiles := by
+  have := runWrites_induct (fun x => x.maxFiles = w.maxFiles ∧ x.files.length ≤ x.maxFiles) ?_ ?_ ?_ ?_ w hist ⟨rfl, h⟩
+  · exact ⟨this.1 ▸ this.2, this.1⟩
+  · intro x sec hx; simpa [Writer.addIndex, modLast_length] using hx
+  · intro x items hx; simpa [Writer.append, modLast_length] using hx
+  · intro x ts hx
+    refine ⟨hx.1, ?_⟩
+    simp only [Writer.roll, List.length_append, List.length_drop, List.length_singleton]
+    have := hx.1
+    omega
+  · intro x n hx; exact hx
+
+/-! ### the retained items are in timestamp order -/
+
+def secLe (a b : Item) : Prop := a.ts / 1000 ≤ b.ts / 1000
+
+theorem retained_modLast_same (fs : Dir) (g : File → File) (hg : ∀ f, (g f).lines = f.lines) :
+    retained (modLast fs g) = retained fs := by
+  induction fs with
+  | nil => rfl
+  | cons x r ih =>
+    cases r with
+    | nil => simp [modLast, retained, hg]
+    | cons y r =>
+      simp only [modLast, retained, List.flatMap_cons] at ih ⊢
+      rw [ih]
+
+theorem retained_modLast_append (fs : Dir) (hne : fs ≠ []) (g : File → File) (items : List Item)
+    (hg : ∀ f, (g f).lines = f.lines ++ items) : retained (modLast fs g) = retained fs ++ items := by
+  rw [← List.dropLast_append_getLast hne, modLast_snoc]
+  simp [retained, hg]
+
+theorem retained_drop_sublist (fs : Dir) (n : Nat) : (retained (fs.drop n)).Sublist (retained fs) := by
+  induction fs generalizing n with
+  | nil => simp [retained]
+  | cons x r ih =>
+    cases n with
+    | zero => simp
+    | succ n =>
+      simp only [List.drop_succ_cons, retained, List.flatMap_cons] at ih ⊢
+      exact (ih n).trans (List.sublist_append_right _ _)
+
+/-- files present, retained items ordered by second, none after second `L` -/
+def Ordered (w : Writer) (L : Nat) : Prop :=
+  w.files ≠ [] ∧ (retained w.files).Pairwise secLe ∧ ∀ it ∈ retained w.files, it.ts / 1000 ≤ L
+
+theorem ordered_mono {w : Writer} {L L' : Nat} (h : Ordered w L) (hL : L ≤ L') : Ordered w L' :=
+  ⟨h.1, h.2.1, fun it hit => (h.2.2 it hit).trans hL⟩
+
+theorem ordered_addIndex {w : Writer} {L : Nat} (sec : Nat) (h : Ordered w L) : Ordered (w.addIndex sec) L := by
+  have e : retained (w.addIndex sec).files = retained w.files := retained_modLast_same _ _ (fun _ => rfl)
+  unfold Ordered
+  rw [e]
+  refine ⟨?_, h.2⟩
+  intro e'
+  have := congrArg List.length e'
+  simp only [Writer.addIndex, modLast_length] at this
+  exact h.1 (List.length_eq_zero_iff.1 this)
+
+theorem ordered_roll {w : Writer} {L : Nat} (ts : Nat) (h : Ordered w L) : Ordered (w.roll ts) L := by
+  unfold Ordered Writer.roll
+  dsimp only
+  have e : retained (List.drop (w.files.length + 1 - w.maxFiles) w.files ++ [{ name := nextName w.files ts, data := [], idx := [] }])
+      = retained (List.drop (w.files.length + 1 - w.maxFiles) w.files) := by
+    simp [retained]
+  rw [e]
+  refine ⟨by simp, h.2.1.sublist (retained_drop_sublist _ _), fun it hit => h.2.2 it ((retained_drop_sublist _ _).subset hit)⟩
+
+theorem ordered_rollIf {w : Writer} {L : Nat} (c : Bool) (ts : Nat) (h : Ordered w L) : Ordered (w.rollIf c ts) L := by
+  unfold Writer.rollIf; split_ifs; exact ordered_roll ts h; exact h
+
+theorem ordered_append {w : Writer} {L s : Nat} (items : List Item) (h : Ordered w L) (hL : L ≤ s)
+    (hi : ∀ it ∈ items, it.ts / 1000 = s) : Ordered (w.append items) s := by
+  have e : retained (w.append items).files = retained w.files ++ items :=
+    retained_modLast_append _ h.1 _ items (fun _ => rfl)
+  unfold Ordered
+  rw [e]
+  refine ⟨?_, ?_, ?_⟩
+  · intro e'
+    have := congrArg List.length e'
+    simp only [Writer.append, modLast_length] at this
+    exact h.1 (List.length_eq_zero_iff.1 this)
+  · rw [List.pairwise_append]
+    refine ⟨h.2.1, ?_, ?_⟩
+    · rw [List.pairwise_iff_forall_sublist]
+      intro a b hab
+      have ha := hi a (hab.subset (by simp))
+      have hb := hi b (hab.subset (by simp))
+      unfold secLe; omega
+    · intro a ha b hb
+      have := h.2.2 a ha
+      have := hi b hb
+      unfold secLe; omega
+  · intro it hit
+    rcases List.mem_append.1 hit with hit | hit
+    · exact (h.2.2 it hit).trans hL
+    · exact (hi it hit).le
+
+theorem ordered_write (w : Writer) (ts : Nat) (items : List Item) (h : Ordered w w.latestOpSec) :
+    Ordered (w.write ts items) (w.write ts items).latestOpSec := by
+  have hi : ∀ it ∈ items.map (fun i => ({ i with ts := ts, res := sanitize i.res } : Item)), it.ts / 1000 = ts / 1000 := by
+    intro it hit; rcases List.mem_map.1 hit with ⟨i, _, rfl⟩; rfl
+  unfold Writer.write
+  dsimp only
+  split_ifs with h1 h2
+  · exact h
+  · refine ordered_mono (L := ts / 1000) ?_ (le_max_right _ _)
+    exact ordered_rollIf _ _ (ordered_append _ (ordered_rollIf _ _ (ordered_addIndex _ h)) (by omega) hi)
+  · refine ordered_mono (L := ts / 1000) ?_ (le_max_right _ _)
+    exact ordered_rollIf _ _ (ordered_append _ h (by omega) hi)
+
+theorem ordered_runWrites (w : Writer) (hist : List (Nat × List Item)) (h : Ordered w w.latestOpSec) :
+    Ordered (runWrites w hist) (runWrites w hist).latestOpSec := by
+  induction hist generalizing w with
+  | nil => exact h
+  | cons p r ih => exact ih _ (ordered_write w p.1 p.2 h)
+
+theorem ordered_new (now a b : Nat) : Ordered (Writer.new now a b) (Writer.new now a b).latestOpSec := by
+  refine ⟨by simp [Writer.new, Writer.roll], ?_, ?_⟩ <;> simp [Writer.new, Writer.roll, retained]
+
+/-! ### the index file -/
+
+theorem be8_length (n : Nat) : (be8 n).length = 8 := rfl
+
+theorem beVal_be8 (n : Nat) (h : n < 2 ^ 64) : beVal (be8 n) = n := by
+  simp only [be8, beVal, List.foldl]
+  norm_num at h ⊢
+  omega
+
+theorem take8_be8 (n : Nat) (r : Bytes) : (be8 n ++ r).take 8 = be8 n := by simp [be8]
+theorem drop8_be8 (n : Nat) (r : Bytes) : (be8 n ++ r).drop 8 = r := by simp [be8]
+
+theorem encodeIdx_length (ents : List (Nat × Nat)) : (encodeIdx ents).length = 16 * ents.length := by
+  induction ents with
+  | nil => rfl
+  | cons e r ih => obtain ⟨s, o⟩ := e; simp [encodeIdx, be8_length, ih]; omega
+
+def entsBounded (ents : List (Nat × Nat)) : Prop := ∀ e ∈ ents, e.1 < 2 ^ 64 ∧ e.2 < 2 ^ 64
+
+/-- scanning an intact index file finds the first entry whose second is not before `begin` -/
+theorem idxScan_encode (ents : List (Nat × Nat)) (hb : entsBounded ents) (fuel : Nat) (hf : ents.length < fuel)
+    (pos bs : Nat) (c : Cache) (nm : Name) :
+    (idxScan fuel (encodeIdx ents) pos bs c nm).2
+      = match ents.find? (fun e => decide (e.1 ≥ bs)) with
+        | some e => Found.at e.2
+        | none => Found.notFound := by
+  induction ents generalizing fuel pos c with
+  | nil =>
+    cases fuel with
+    | zero => simp at hf
+    | succ f => simp [idxScan, encodeIdx]
+  | cons e r ih =>
+    obtain ⟨s, o⟩ := e
+    have hs := (hb (s, o) (by simp)).1
+    have ho := (hb (s, o) (by simp)).2
+    cases fuel with
+    | zero => simp at hf
+    | succ f =>
+      have hlen : (encodeIdx ((s, o) :: r)).length = 16 + 16 * r.length := by
+        rw [encodeIdx_length]; simp; omega
+      have hlen2 : (be8 o ++ encodeIdx r).length = 8 + 16 * r.length := by
+        simp [be8_length, encodeIdx_length]
+      unfold idxScan
+      rw [if_neg (by omega), if_neg (by omega)]
+      simp only [encodeIdx, List.append_assoc, take8_be8, drop8_be8, beVal_be8 s hs, beVal_be8 o ho]
+      by_cases hge : s ≥ bs
+      · rw [if_pos hge, if_neg (by omega)]
+        simp [List.find?, hge]
+      · rw [if_neg hge, if_neg (by omega)]
+        rw [ih (fun e he => hb e (List.mem_cons_of_mem _ he)) f (by simpa using hf)]
+        simp [List.find?, hge]
+
+/-- the position the index delivers for `begin`: the files from the first one that has an entry
+    not before `begin` on, and that entry's offset -/
+def firstHit (bs : Nat) : Dir → Option (Dir × Nat)
+  | [] => none
+  | f :: r => match f.ents.find? (fun e => decide (e.1 ≥ bs)) with
+    | some e => some (f :: r, e.2)
+    | none => firstHit bs r
+
+theorem firstHit_suffix (bs : Nat) (fs d : Dir) (off : Nat) (h : firstHit bs fs = some (d, off)) :
+    ∃ pre f rest, fs = pre ++ f :: rest ∧ d = f :: rest := by
+  induction fs with
+  | nil => simp [firstHit] at h
+  | cons f r ih =>
+    unfold firstHit at h
+    split at h
+    · simp only [Option.some.injEq, Prod.mk.injEq] at h
+      exact ⟨[], f, r, rfl, h.1.symm⟩
+    · obtain ⟨pre, g, rest, e1, e2⟩ := ih h
+      exact ⟨f :: pre, g, rest, by simp [e1], e2⟩
+
+theorem findOffsetToStart_intact (f : File) (hf : FileOK f) (hb : entsBounded f.ents) (c : Cache) (b : Nat) :
+    (findOffsetToStart f c b 0).2
+      = match f.ents.find? (fun e => decide (e.1 ≥ b / 1000)) with
+        | some e => Found.at e.2
+        | none => Found.notFound := by
+  unfold findOffsetToStart
+  simp only [List.drop_zero]
+  rw [hf.2]
+  exact idxScan_encode _ hb _ (by rw [encodeIdx_length]; omega) _ _ _ _
+
+theorem searchLoop_intact (doRead : Dir → Nat → List Item) (b : Nat) (fs : Dir)
+    (hf : ∀ f ∈ fs, FileOK f ∧ entsBounded f.ents) (c : Cache) :
+    (searchLoop doRead b 0 fs c).2
+      = match firstHit (b / 1000) fs with
+        | some (d, off) => doRead d off
+        | none => [] := by
+  induction fs generalizing c with
+  | nil => rfl
+  | cons f r ih =>
+    have h1 := findOffsetToStart_intact f (hf f (by simp)).1 (hf f (by simp)).2 c b
+    unfold searchLoop firstHit
+    cases hfind : f.ents.find? (fun e => decide (e.1 ≥ b / 1000)) with
+    | some e =>
+      rw [hfind] at h1
+      rcases hres : findOffsetToStart f c b 0 with ⟨c', fd⟩
+      rw [hres] at h1
+      simp only at h1
+      subst h1
+      rfl
+    | none =>
+      rw [hfind] at h1
+      rcases hres : findOffsetToStart f c b 0 with ⟨c', fd⟩
+      rw [hres] at h1
+      simp only at h1
+      subst h1
+      exact ih (fun g hg => hf g (List.mem_cons_of_mem _ hg)) c'
+
 end Sentinel.MetricLog
